@@ -289,11 +289,13 @@ class GridWeighted(Grid):
         elif isinstance(value, (list, tuple)):
             if len(value) != len(self):
                 raise ValueError("Input must be the same size with the grid points")
-            if all(val <= 0 for val in value):
+            if any(val <= 0 for val in value):
                 raise ValueError("Weight values must be bigger than 0")
             self._weights = [float(val) for val in value]
         else:
             raise TypeError("The input should be a list, tuple or a single int, float value")
+        # Weighted grid points depend on the weights
+        self._cache['gridptsw'][:] = []
 
     def reset(self):
         """ Resets the grid. """
@@ -317,11 +319,13 @@ class GridWeighted(Grid):
 
         # Start adding weights, if not cached
         if not self._cache['gridptsw']:
+            len_v = len(self._grid_points[0])
             for idx, cols in enumerate(self._grid_points):
                 weighted_gp_row = []
-                for row in cols:
-                    temp = [r * self._weights[idx] for r in row]
-                    temp.append(self._weights[idx])
+                for jdx, row in enumerate(cols):
+                    weight = self._weights[jdx + (idx * len_v)]
+                    temp = [r * weight for r in row]
+                    temp.append(weight)
                     weighted_gp_row.append(temp)
                 self._cache['gridptsw'].append(weighted_gp_row)
 
